@@ -314,7 +314,9 @@ class MDCPDPEnv(RL4COEnvBase):
                 "current_carry": current_carry,
                 "current_length": current_length,
                 "arrivetime_record": arrivetime_record,
-                "capacity": td["capacity"],
+                # one capacity per depot: the generator emits a single column [batch, 1] (same capacity
+                # for every vehicle) while _step/_get_reward read num_depot from capacity.shape[-1]
+                "capacity": td["capacity"].expand(*batch_size, self.generator.num_depot),
                 "lateness_weight": td["lateness_weight"],
                 "to_deliver": to_deliver,
                 "available": available,
